@@ -35,7 +35,7 @@ ASSUMPTIONS = [
     'metadata for the dataframe/export checks is non-jagged',
 ]
 ANCHORS = ['Table.sum', 'Table.min', 'Table.max', 'Table.nonzero_counts', 'Table.reduce', 'Table.get_table_density', 'compute_counts_per_sample_stats', '_summarize_table', 'Table.to_dataframe', 'Table.metadata_to_dataframe', '_export_metadata']
-REQUIRED = ['sum_checked', 'minmax_checked', 'minmax_negative_only_vectors',
+REQUIRED = ['reduce_callable_kinds_checked', 'sum_checked', 'minmax_checked', 'minmax_negative_only_vectors',
             'nonzero_counts_checked', 'trailing_empty_vector_cases',
             'reduce_checked', 'stats_checked', 'summarize_default',
             'summarize_qualitative', 'summarize_observations',
@@ -287,6 +287,35 @@ def run_case(ctx, index):
                 if not snap.bits_equal(got, V.max(axis=1)):
                     fail('reduce-max-' + axis, '%r vs %r' % (
                         got.tolist(), V.max(axis=1).tolist()))
+                # other kinds of callables: numpy ufuncs, builtins, callable
+                # objects, order-sensitive folds (vector order = id order)
+                import functools
+
+                class Sub:
+                    def __call__(self, a, b):
+                        return a - b
+                for nm, f, exact in (
+                        ('np.add', np.add, False),
+                        ('np.maximum', np.maximum, True),
+                        ('np.minimum', np.minimum, True),
+                        ('builtin-max', max, True),
+                        ('callable-sub', Sub(), False),
+                        ('partial-2a+b', functools.partial(
+                            lambda k, a, b: k * a + b, 2.0), False)):
+                    if not V.shape[1]:
+                        continue
+                    with np.errstate(all='ignore'):
+                        ref = np.array([functools.reduce(
+                            f, [float(x) for x in row]) for row in V])
+                        got = t.reduce(f, axis)
+                    if not np.all(np.isfinite(ref)):
+                        continue
+                    ok = snap.bits_equal(got, ref) if exact else \
+                        close(got, ref)
+                    if np.shape(got) != ref.shape or not ok:
+                        fail('reduce-%s-%s' % (nm, axis), '%r vs %r' % (
+                            np.asarray(got).tolist(), ref.tolist()))
+                    ctx.count('reduce_callable_kinds_checked')
             ctx.count('reduce_checked')
         elif what == 'stats':
             from biom.util import compute_counts_per_sample_stats
